@@ -12,6 +12,7 @@ from ..harness import VERIF, inconclusive, ok, skipped, violation
 
 ID = 'C19'
 ENGINE = 'crosshair'
+SOLVER_NAME = 'CrossHair 0.0.110 (symbolic execution of Python, z3 inside); solver time = wall time of the CrossHair runs'
 LEVEL = 'other'
 TECHNIQUE = 'CrossHair (z3-backed symbolic execution) of a history interpreter over the real Config/ConfigState/_config_var/InverseOperator against an explicit-stack oracle; two tasks in separate contextvars.Contexts under a symbolic schedule'
 EXPLANATION = ('A symbolic history (List[int]) of events {enter one of three settings, leave normally, leave through an exception, create a lazy inverse, '
